@@ -6,12 +6,14 @@ private fields read through #include) and by the extracted models; per call in.p
 private buffering fields are compared.  Direct oracles (the property statement on the real code): streaming output ==
 one-shot output, return 0 exactly at flushed frame ends, decode(all emitted) == consumed (through R and libzstd)."""
 import json
+import os
 import random
 import struct
 
 from .. import codec, core
 from .. import streamtie as st
 from . import c02_common as cc
+from . import c02_hist as ch
 
 RULE = ("decoder: streams = frames emitted by the real compressor (small windows so that the output ring restarts), hand-made "
         "raw/RLE/empty-block frames with every header form, multi-frame + skippable concatenations, magicless, plus damaged "
@@ -600,6 +602,9 @@ def run(ctx):
     ctx.proof_verdict(search_after_broken_proof(ctx, tie, cd))
     rng = random.Random(ctx.seed)
     k = 1 if ctx.quick else 16
+    if os.environ.get("C02_ONLY") == "hist":       # development aid: only the reused-context histories
+        core.log("reused-context decoding histories: violations %d" % ch.run_hist(ctx, random.Random(ctx.seed + 7919), cd, 150 * k))
+        return
     # ---- decoder
     streams = cc.build_streams(ctx, rng, cd, 60 * k, 40 * k, 25 * k)
     bad = damaged_streams(ctx, rng, cd, streams, 60 * k)
@@ -629,6 +634,8 @@ def run(ctx):
     # ---- other entry points
     run_bufferless_and_legacy(ctx, rng, tie, cd, streams, 24 * k)
     run_window_tie(ctx, rng, tie, cd, 60 * k)
+    nh = ch.run_hist(ctx, random.Random(ctx.seed + 7919), cd, 150 * k)
+    core.log("reused-context decoding histories (dictionaries, prefixes, resets, stable-out, legacy frames): violations %d" % nh)
     nst = cc.run_store_tie(ctx, rng, tie, 60 * k)
     ctx.notes["store_tie_histories_byte_equal"] = nst
     core.log("store tie: %d histories byte-equal" % nst)
